@@ -14,42 +14,61 @@ CONSTANTS Depth,      \* maximal number of layers of a stack (base included)
 
 CONSTANTS WL1, WL2, WL3, WTag, WOpNames, WModes, WIds, WBlobs   \* witness search (3), see below ("-" = no layer)
 
-VARIABLES hist, reads, case
+VARIABLES hist, reads, case, feat
 
 NoCase == [stack |-> <<"fs">>]
 
 \* ---- (1) static cases
 AllCases == StaticCases(Depth, BigSizes)      \* constant-level, evaluated once
-SInit == /\ st = InitState(<<"fs">>, FALSE) /\ n = 0 /\ hist = <<>> /\ reads = 0
+SInit == /\ st = InitState(<<"fs">>, FALSE) /\ n = 0 /\ hist = <<>> /\ reads = 0 /\ feat = <<>>
          /\ case \in AllCases
-SNext == UNCHANGED <<st, n, hist, reads, case>>
+SNext == UNCHANGED <<st, n, hist, reads, case, feat>>
 EmitCase == PrintT(ToJson(case))
 
 \* ---- (2) programs
 GenSems == {Sem(s) : s \in Stacks(Depth)}
 PInit == /\ \E sm \in GenSems : st = InitState(sm, FALSE)
-         /\ n = 0 /\ hist = <<>> /\ reads = 0 /\ case = NoCase
+         /\ n = 0 /\ hist = <<>> /\ reads = 0 /\ case = NoCase /\ feat = <<>>
 \* a program starts by writing something (or opening a transaction); after MaxLen calls one
 \* deterministic "end" step follows, so that exactly the walk the simulator chose is printed
 FirstOk(o) == hist # <<>> \/ o.op \in {"put", "begin"}
+\* weighted choice (TLC's RandomElement, seeded by -seed): op kinds by weight, mostly part id "p", so that a
+\* program of a handful of calls tells a story about one part; exactly one successor per step
+RW(q) == q[RandomElement(1..Len(q))]
+KindW == <<"put", "put", "put", "get", "get", "get", "get", "del", "del", "ids", "begin", "commit", "commit", "rollback", "drain", "drain">>
+\* CRASH: a call known to kill the process (see EcTag) is not generated
+Usable(o) == Enabled(st, o) /\ FirstOk(o) /\ (EcDev /\ o.op = "get" => "CRASH" \notin Step(st, o).tags)
 PNext == \/ /\ Len(hist) < MaxLen
-            /\ \E o \in AllOps :
-                 /\ Enabled(st, o) /\ FirstOk(o)
-                 /\ "CRASH" \notin Step(st, o).tags      \* known to kill the process (see EcTag): not generated
+            \* (bounded quantifiers over singleton sets bind each random draw exactly once)
+            /\ \E kind \in {RW(KindW)}, pid \in {RW(<<"p", "p", "p", "p", "q">>)}, c3 \in {{o \in AllOps : Usable(o)}} :
+                 LET c2 == {o \in c3 : o.id \in {pid, "-"}}
+                     c1 == {o \in c2 : o.op = kind} IN
+                 \E o \in {RandomElement(IF c1 # {} THEN c1 ELSE IF c2 # {} THEN c2 ELSE c3)} :
                  /\ st' = Step(st, o)
                  /\ hist' = Append(hist, o)
                  /\ reads' = reads + (IF st'.res.kind = "get" /\ st'.res.v \in Blobs THEN 1 ELSE 0)
                                    + (IF st'.res.kind = "ids" /\ st'.res.ids # {} THEN 1 ELSE 0)
-            /\ n' = n + 1 /\ UNCHANGED case
+            /\ n' = n + 1 /\ UNCHANGED <<case, feat>>
          \/ /\ Len(hist) = MaxLen /\ n = MaxLen
-            /\ n' = n + 1 /\ UNCHANGED <<st, hist, reads, case>>
+            /\ n' = n + 1 /\ UNCHANGED <<st, hist, reads, case, feat>>
 \* number of reads in a program that return blob b1 (the blob that carries the size class): by replay
+\* the branches of the model that a program exercises: <<call, mode, branch...>> per call
+FeatOf(s, o) ==
+  CASE o.op = "get" -> <<"get", o.mode>> \o GetL(IF o.mode = "auto" THEN [s EXCEPT !.tx = "ro"] ELSE s, 1,
+                                               IF o.mode = "auto" THEN "tx" ELSE o.mode, o.id).via
+    [] o.op = "drain" -> <<"drain", IF s.ob = <<>> THEN "nothing" ELSE "entries">>
+    [] o.op \in {"commit", "rollback"} -> <<o.op, IF s.istaged = <<>> THEN "nowrites" ELSE "writes">>
+    [] o.op \in {"put", "del"} -> <<o.op, o.mode, IF s.ideal[o.id] = None THEN "absent" ELSE "present">>
+    [] OTHER -> <<o.op, o.mode>>
+RECURSIVE Feats(_, _)
+Feats(s, ops) == IF ops = <<>> THEN {} ELSE {FeatOf(s, Head(ops))} \cup Feats(Step(s, Head(ops)), Tail(ops))
 RECURSIVE ReadsB1(_, _)
 ReadsB1(s, ops) == IF ops = <<>> THEN 0
                    ELSE LET s2 == Step(s, Head(ops)) IN
                         (IF s2.res.kind = "get" /\ s2.res.v = "b1" THEN 1 ELSE 0) + ReadsB1(s2, Tail(ops))
 EmitProg == IF n = MaxLen + 1
-            THEN PrintT(ToJson([sem |-> st.sem, prog |-> hist, reads |-> reads, reads1 |-> ReadsB1(InitState(st.sem, FALSE), hist)]))
+            THEN PrintT(ToJson([sem |-> st.sem, prog |-> hist, reads |-> reads, reads1 |-> ReadsB1(InitState(st.sem, FALSE), hist),
+                                feats |-> Feats(InitState(st.sem, FALSE), hist)]))
             ELSE TRUE
 
 \* ---- (3) witness programs: breadth-first search (restricted alphabet) for the shortest program on
@@ -58,11 +77,28 @@ EmitProg == IF n = MaxLen + 1
 WSem == SelectSeq(<<WL1, WL2, WL3>>, LAMBDA x : x # "-")
 WOps == {o \in AllOps : /\ o.op \in WOpNames /\ o.mode \in WModes \cup {"-"}
                         /\ o.id \in WIds \cup {"-"} /\ o.blob \in WBlobs \cup {"-"}}
-WInit == /\ st = InitState(WSem, FALSE) /\ n = 0 /\ hist = <<>> /\ reads = 0 /\ case = NoCase
+WInit == /\ st = InitState(WSem, FALSE) /\ n = 0 /\ hist = <<>> /\ reads = 0 /\ case = NoCase /\ feat = <<>>
 WNext == /\ n < MaxLen /\ st.ok
          /\ \E o \in WOps : Enabled(st, o) /\ st' = Step(st, o) /\ hist' = Append(hist, o)
-         /\ n' = n + 1 /\ UNCHANGED <<reads, case>>
+         /\ n' = n + 1 /\ UNCHANGED <<reads, case, feat>>
 EmitWitness == IF ~st.ok /\ WTag \in st.tags
                THEN PrintT(ToJson([sem |-> st.sem, prog |-> hist, tag |-> WTag]))
                ELSE TRUE
+
+\* ---- (4) branch witnesses: breadth-first search over the MODEL STATES (one part id; VIEW without the history,
+\* so every distinct (state, branch just taken) is visited once, by a shortest program): the first program
+\* printed for a (semantic stack, branch) pair is a shortest program that exercises that branch of the model.
+\* The random programs of (2) rarely reach the deeper ones (e.g. a pending delete entry over drained content).
+FOps == {o \in AllOps : o.id \in {"p", "-"}}
+FInit == /\ \E sm \in GenSems : st = InitState(sm, FALSE)
+         /\ n = 0 /\ hist = <<>> /\ reads = 0 /\ case = NoCase /\ feat = <<>>
+FNext == /\ n < MaxLen
+         /\ \E o \in FOps : /\ Enabled(st, o) /\ (EcDev /\ o.op = "get" => "CRASH" \notin Step(st, o).tags)
+                             /\ st' = Step(st, o) /\ hist' = Append(hist, o) /\ feat' = FeatOf(st, o)
+         /\ n' = n + 1 /\ UNCHANGED <<reads, case>>
+FView == <<[st EXCEPT !.res = NoRes, !.ok = TRUE, !.tags = {}], feat>>
+EmitFeat == IF feat # <<>> /\ feat[1] \in {"get", "ids", "drain", "commit", "rollback"}
+            THEN PrintT(ToJson([sem |-> st.sem, prog |-> hist, feat |-> feat, reads |-> 0,
+                                reads1 |-> ReadsB1(InitState(st.sem, FALSE), hist), feats |-> Feats(InitState(st.sem, FALSE), hist)]))
+            ELSE TRUE
 =============================================================================
